@@ -191,7 +191,7 @@ def check_doc(t: Tally, kidx, shape, via, long_streams=True):
                 import pathlib
                 import space_packet_parser
                 from mc import VERIF_ROOT
-                from mc.spec import render_xml
+                from mc.spec import doc_xml as render_xml
                 path = os.path.join(VERIF_ROOT, ".work", f"c01_{os.getpid()}.xml")
                 os.makedirs(os.path.dirname(path), exist_ok=True)
                 with open(path, "wb") as f:
@@ -403,7 +403,7 @@ def replay(case):
 
 
 def repro_py(case):
-    from mc.spec import render_xml
+    from mc.spec import doc_xml as render_xml
     doc = compose(tuple(case["kinds"]), case["shape"])
     return ("import io\nfrom space_packet_parser.xtce.definitions import XtcePacketDefinition\n"
             f"xml = {render_xml(doc)!r}\nd = XtcePacketDefinition.from_xtce(io.BytesIO(xml))\n"
